@@ -377,57 +377,152 @@ def number_reader_refuses_only_non_numbers(chk, prog):
     f = prog.fn('JsonTokenizer::read_number')
     if not chk.anchor(RN, 'JsonTokenizer::read_number', f):
         return
-    g = cfg(f)
-    fl = [bb for bb, t in f.calls() if callee_short(t) == 'str::parse' and ('f32' in t.get('dty', '') or 'f64' in t.get('dty', ''))]
-    il = [bb for bb, t in f.calls() if callee_short(t) == 'str::parse' and 'i32' in t.get('dty', '')]
-    if not chk.anchor(RN, 'str::parse::<f32> in read_number', fl):
+    # the units of read_number: the function and its closures (`.parse::<i32>().map(..).or_else(|_| ..parse::<f32>()..)`
+    # puts the float parse into a closure handed to Result::or_else)
+    units = [u for u in prog.with_closures(f)]
+
+    def _parses(u, tys):
+        return [bb for bb, t in u.calls() if callee_short(t) == 'str::parse' and any(x in t.get('dty', '') for x in tys)]
+    FL = {u.p: _parses(u, ('f32', 'f64')) for u in units}
+    IL = {u.p: _parses(u, ('i32',)) for u in units}
+    if not chk.anchor(RN, 'str::parse::<f32> in read_number', [b for u in units for b in FL[u.p]]):
         return
-    exits_ = err_exits(prog, f)
-    own = [(b, d_) for b, d_, s_ in exits_ if s_ is None]
+    from analysis.defuse import du
+
+    def _adaptor(t):
+        """('Result'|'Option', method) when the call is a combinator of Result / Option, else None."""
+        parts = callee_short(t).split('::')
+        return (parts[0], parts[-1]) if len(parts) >= 2 and parts[0] in ('Result', 'Option') else None
+
+    def _closures(t):
+        return [prog.fns[c] for c in (t['f'].get('closures') or []) if c in prog.fns]
+
+    def _producer(u, o):
+        """The one call that defines the local an operand names: (bb, term) or None."""
+        if o.get('k') not in ('copy', 'move') or 'p' in o['pl']:
+            return None
+        dfs = du(u).defs.get(o['pl']['l'], [])
+        if len(dfs) == 1 and dfs[0]['kind'] == 'call':
+            return dfs[0]['bb'], dfs[0]['term']
+        return None
+
+    def _returned(c, depth):
+        """Origins of the refusals a closure's result can stand for."""
+        out = set()
+        for l in {0} | set(c.ret_locals):
+            for d_ in du(c).defs.get(l, []):
+                if d_['kind'] == 'call':
+                    out |= _origins(c, d_['bb'], d_['term'], depth + 1)
+                elif d_['kind'] == 'assign' and d_['rv']['k'] == 'agg' and d_['rv'].get('var') in ('Err', 'None'):
+                    out.add(('own', c.p, d_['bb']))
+                elif d_['kind'] == 'assign' and d_['rv']['k'] == 'agg' and d_['rv'].get('var') in ('Ok', 'Some'):
+                    pass
+                else:
+                    out.add(('other', c.p, d_['bb']))
+        return out
+
+    def _origins(u, bb, t, depth=0):
+        """Which computation refused when the Result / Option this call produces is an Err / None:
+        {('float'|'int'|'own'|'other', unit path, block)}.  The combinators are read by what they do to the failure side:
+        map / map_err / inspect / ok / `?` keep the receiver's failure; or_else / or replace it by the failure of the
+        alternative (which is tried exactly when the receiver failed); and_then adds the failure of the continuation."""
+        if depth > 8:
+            return {('other', u.p, bb)}
+        cs = callee_short(t)
+        if cs == 'str::parse':
+            return {('float' if bb in FL[u.p] else 'int' if bb in IL[u.p] else 'other', u.p, bb)}
+        ad = _adaptor(t)
+        keep = cs.endswith('::branch') or cs.endswith('::from_residual') or (
+            ad and ad[1] in ('map', 'map_err', 'inspect', 'inspect_err', 'ok', 'as_ref', 'as_mut', 'copied', 'cloned'))
+        recv = _producer(u, t['args'][0]) if t['args'] else None
+
+        def _of(p):
+            return _origins(u, p[0], p[1], depth + 1) if p else {('other', u.p, bb)}
+        if keep:
+            return _of(recv)
+        if ad and ad[1] == 'or_else':
+            cl = _closures(t)
+            return set().union(*[_returned(c, depth) for c in cl]) if cl else {('other', u.p, bb)}
+        if ad and ad[1] == 'or' and len(t['args']) > 1:
+            return _of(_producer(u, t['args'][1]))
+        if ad and ad[1] == 'and_then':
+            cl = _closures(t)
+            return _of(recv) | (set().union(*[_returned(c, depth) for c in cl]) if cl else {('other', u.p, bb)})
+        return {('other', u.p, bb)}
+
+    def _int_failure_only(u, t):
+        """The receiver of this combinator fails exactly when an i32 parse of u failed."""
+        p = _producer(u, t['args'][0]) if t['args'] else None
+        o = _origins(u, p[0], p[1]) if p else set()
+        return bool(o) and all(k == 'int' for k, _, _ in o)
+
+    def _float_points(u, seen=()):
+        """Blocks of u at which the text is handed to the float parse: the parse itself, or a combinator that runs its
+        closure when the receiver failed (or_else, unwrap_or_else) where the receiver is the integer parse and the
+        closure contains a float point."""
+        out = set(FL[u.p])
+        for bb, t in u.calls():
+            ad = _adaptor(t)
+            if ad and ad[1] in ('or_else', 'unwrap_or_else') and _int_failure_only(u, t):
+                if any(c.p not in seen and _float_points(c, tuple(seen) + (u.p,)) for c in _closures(t)):
+                    out.add(bb)
+        return out
+
+    def _runs_after_float_refusal(c):
+        """Closure c is handed to a combinator that runs it only on the failure side (map_err, or_else, unwrap_or_else)
+        of a receiver whose every failure is the float parse's refusal."""
+        par = next((u for u in units if c in prog.children.get(u.p, [])), None)
+        if par is None:
+            return False
+        for bb, t in par.calls():
+            if c.p in (t['f'].get('closures') or []):
+                ad = _adaptor(t)
+                if not (ad and ad[1] in ('map_err', 'or_else', 'unwrap_or_else') and t['args']):
+                    return False
+                p = _producer(par, t['args'][0])
+                o = _origins(par, p[0], p[1]) if p else set()
+                return bool(o) and all(k == 'float' for k, _, _ in o)
+        return False
+
     n = 0
-    # an error handed on from the float parse itself (`.parse::<f32>().map_err(..)` as the result) is the sanctioned form;
-    # one handed on from the integer parse is a refusal before the float parse
-    def _root(src):
-        # walk back through Result / Option adaptors (`.map(..).map_err(..)`) to the call that produced the value
-        from analysis.defuse import du
-        bb_, t_ = src[0], src[1]
-        for _ in range(6):
-            cs_ = callee_short(t_)
-            if not (cs_.split('::')[0] in ('Result', 'Option') and t_['args'] and t_['args'][0].get('k') in ('copy', 'move')
-                    and 'p' not in t_['args'][0]['pl']):
-                break
-            dfs = [d for d in du(f).defs.get(t_['args'][0]['pl']['l'], []) if d['kind'] == 'call']
-            if len(dfs) != 1:
-                break
-            bb_, t_ = dfs[0]['bb'], dfs[0]['term']
-        return bb_
-    for b, d_, s_ in exits_:
-        if s_ is None:
-            continue
-        s_ = (_root(s_), s_[1])
-        if s_[0] in fl:
+    for u in units:
+        g = cfg(u)
+        exits_ = err_exits(prog, u) if u.body['locals'][0]['ty'].startswith('core::result::Result<') else []
+        # an error handed on from the float parse itself (`.parse::<f32>().map_err(..)` as the result) is the sanctioned
+        # form; one handed on from the integer parse is a refusal before the float parse
+        for b, d_, s_ in exits_:
+            if s_ is None or s_[0] < 0:
+                continue
+            for kind, _, _ in sorted(_origins(u, s_[0], s_[1])):
+                if kind == 'float':
+                    n += 1
+                    chk.ok(RN, chk.key(RN, 'float-parse-error-handed-on'), 'the error is the float parse\'s own refusal',
+                           u.loc(b))
+                elif kind == 'int':
+                    n += 1
+                    chk.fail(RN, chk.key(RN, 'int-parse-error-handed-on'), 'read_number hands on the error of '
+                             'str::parse::<i32>: a number that is not a 32-bit integer is refused without the float parse',
+                             u.loc(b))
+        for b, d_, s_ in exits_:
+            if s_ is not None:
+                continue
             n += 1
-            chk.ok(RN, chk.key(RN, 'float-parse-error-handed-on'), 'the error is the float parse\'s own refusal', f.loc(b))
-        elif s_[0] in il:
-            n += 1
-            chk.fail(RN, chk.key(RN, 'int-parse-error-handed-on'), 'read_number hands on the error of str::parse::<i32>: a '
-                     'number that is not a 32-bit integer is refused without the float parse', f.loc(b))
-    for b, d_ in own:
-        n += 1
-        ok = any(g.dominates(p, b) for p in fl)
-        chk.decide(RN, chk.key(RN, 'own-error', '#%d' % n), ok, 'raised only after the float parse refused the text',
-                   'read_number refuses a number without having tried the float parse (error exit not dominated by '
-                   'str::parse::<f32>): number forms the default loader accepts, such as 1e+17, make the streaming loader '
-                   'reject the whole story', f.loc(b))
-    # the float parse is reachable whenever the integer parse failed
-    for i, p in enumerate(il):
-        w = g.path(g.succ[p], lambda b: b in g.returns, avoid=fl)
-        # a return that avoids the float parse must be the Ok(Int) of the success side: it assigns Number::Int
-        okw = True
-        if w is not None:
-            okw = any(s['k'] == 'assign' and s['rv']['k'] == 'agg' and s['rv'].get('var') == 'Int'
-                      for b in w for s in f.blocks[b]['st'])
-        chk.decide(RN, chk.key(RN, 'int-failure-falls-through', '#%d' % i), okw,
-                   'without an i32 the text goes on to the float parse',
-                   'after str::parse::<i32> read_number can return without the float parse and without an integer', f.loc(p))
+            ok = any(g.dominates(p, b) for p in FL[u.p]) or (u is not f and _runs_after_float_refusal(u))
+            chk.decide(RN, chk.key(RN, 'own-error', '#%d' % n), ok, 'raised only after the float parse refused the text',
+                       'read_number refuses a number without having tried the float parse (error exit not dominated by '
+                       'str::parse::<f32>): number forms the default loader accepts, such as 1e+17, make the streaming loader '
+                       'reject the whole story', u.loc(b))
+        # the float parse is reachable whenever the integer parse failed
+        fp = _float_points(u)
+        for i, p in enumerate(IL[u.p]):
+            w = g.path(g.succ[p], lambda b: b in g.returns, avoid=fp)
+            # a return that avoids the float parse must be the Ok(Int) of the success side: it assigns Number::Int
+            okw = True
+            if w is not None:
+                okw = any(s['k'] == 'assign' and s['rv']['k'] == 'agg' and s['rv'].get('var') == 'Int'
+                          for b in w for s in u.blocks[b]['st'])
+            chk.decide(RN, chk.key(RN, 'int-failure-falls-through', '#%d' % i), okw,
+                       'without an i32 the text goes on to the float parse',
+                       'after str::parse::<i32> read_number can return without the float parse and without an integer',
+                       u.loc(p))
     chk.floor(RN, 'error exits of read_number that concern the number text', n, 1)
